@@ -111,13 +111,109 @@ class Raised(Exception):
         self.name = name
 
 
+MAX_INLINE_DEPTH = 6
+
+
+def _memo_key(node):
+    return "<call:%d>" % id(node)
+
+
+def _plain_function(fn):
+    """a function whose call is an ordinary evaluation of its body: no decorator, not a generator / coroutine"""
+    ok = getattr(fn, "_c12_plain", None)
+    if ok is None:
+        ok = isinstance(fn, ast.FunctionDef) and not fn.decorator_list
+        if ok:
+            stack = list(fn.body)
+            while stack:
+                n = stack.pop()
+                if isinstance(n, (ast.Yield, ast.YieldFrom, ast.Await)):
+                    ok = False
+                    break
+                if isinstance(n, (ast.FunctionDef, ast.AsyncFunctionDef, ast.Lambda, ast.ClassDef)):
+                    continue
+                stack.extend(ast.iter_child_nodes(n))
+        fn._c12_plain = ok
+    return ok
+
+
+_PURE_BUILTINS = {"len", "min", "max", "sum", "sorted", "list", "tuple", "enumerate", "zip", "reversed", "str", "repr", "isinstance", "any",
+                  "all", "bool", "iter", "set", "frozenset", "type", "id", "print"}
+_PURE_METHODS = {"index", "count", "copy", "__len__", "__contains__"}
+
+
+def _list_param_use(fn, eng):
+    """how a function treats a list it receives as parameter: {parameter: 'pure' | 'mutates' | 'escapes'}.
+    'mutates': altered only through append / extend / += / item stores (all followed by the engine, so the parameter's final value is the
+    caller's list after the call); 'escapes': bound to another name, handed on to code that is not followed, altered in another way"""
+    cache = fn.__dict__.setdefault("_c12_lpu", {})
+    use = cache.get(id(eng.inline))
+    if use is not None:
+        return use
+    params = {a.arg for a in fn.args.posonlyargs + fn.args.args + fn.args.kwonlyargs}
+    seen = {p: set() for p in params}
+    par = {}
+    for n in ast.walk(fn):
+        for c in ast.iter_child_nodes(n):
+            par[id(c)] = n
+    for n in ast.walk(fn):
+        if not (isinstance(n, ast.Name) and n.id in params):
+            continue
+        up = par.get(id(n))
+        kinds = seen[n.id]
+        if isinstance(n.ctx, (ast.Store, ast.Del)):
+            kinds.add("mutates" if isinstance(up, ast.AugAssign) and up.target is n else "rebound")
+            continue
+        if isinstance(up, ast.Attribute):
+            call = par.get(id(up))
+            if isinstance(call, ast.Call) and call.func is up:
+                kinds.add("mutates" if up.attr in ("append", "extend") else ("pure" if up.attr in _PURE_METHODS else "escapes"))
+            else:
+                kinds.add("escapes")
+        elif isinstance(up, ast.Subscript) and up.value is n:
+            kinds.add("mutates" if isinstance(up.ctx, (ast.Store, ast.Del)) else "pure")
+        elif isinstance(up, ast.Call) and n in up.args:
+            d = dotted(up.func)
+            if d in _PURE_BUILTINS:
+                kinds.add("pure")
+            elif d is not None and "." not in d and d in eng.mod.funcs and d not in params and eng.inline is not None and eng.inline(d) \
+                    and _plain_function(eng.mod.funcs[d]):
+                kinds.add("mutates")         # followed in turn: its effect on the list arrives in this function's local
+            else:
+                kinds.add("escapes")
+        elif isinstance(up, (ast.For, ast.comprehension)) and up.iter is n:
+            kinds.add("pure")
+        elif isinstance(up, (ast.Compare, ast.BoolOp, ast.UnaryOp, ast.If, ast.IfExp, ast.While, ast.FormattedValue, ast.Return, ast.BinOp,
+                             ast.Assert)):
+            kinds.add("pure" if not (isinstance(up, ast.IfExp) and up.test is not n) else "escapes")
+        elif isinstance(up, ast.AugAssign):
+            kinds.add("pure")
+        else:
+            kinds.add("escapes")
+    use = {}
+    for p, kinds in seen.items():
+        if "escapes" in kinds or ("rebound" in kinds and "mutates" in kinds):
+            use[p] = "escapes"
+        elif "mutates" in kinds:
+            use[p] = "mutates"
+        else:
+            use[p] = "pure"
+    cache[id(eng.inline)] = use
+    return use
+
+
 _FLIP = {ast.Lt: ast.Gt, ast.Gt: ast.Lt, ast.LtE: ast.GtE, ast.GtE: ast.LtE, ast.Eq: ast.Eq, ast.NotEq: ast.NotEq}
 MAX_STATES = 4000
 
 
 class Engine:
-    def __init__(self, ctx, rel, fn, param=None, cond=None, call=None, cmp=None, length=None, env=None, follow=True, post=None, lenient=False, exceptions=False, strict_locals=False):
+    def __init__(self, ctx, rel, fn, param=None, cond=None, call=None, cmp=None, length=None, env=None, follow=True, post=None, lenient=False, exceptions=False, strict_locals=False,
+                 inline=None, _stack=()):
         self.ctx, self.rel, self.fn = ctx, rel, fn
+        self.inline = inline                 # predicate on names of module-level functions: calls to them are evaluated in place
+        self._stack = _stack                 # names of the functions being evaluated (no recursion)
+        self._term = []                      # paths ended by a raise inside a followed call of the current statement
+        self._strict_flag = strict_locals
         self.mod = ctx.src.mod(rel)
         self.param = param
         self.cond_hook, self.call_hook, self.cmp_hook, self.len_hook = cond, call, cmp, length
@@ -179,45 +275,59 @@ class Engine:
         return [(c, "next", None) for c in cur] + done
 
     def stmt(self, s, st):
+        """-> [(state, outcome, payload)]; paths that end inside a followed helper call (its raise) are outcomes of the statement"""
+        saved, self._term = self._term, []
+        try:
+            res = self._stmt(s, st)
+            return res + self._term
+        finally:
+            self._term = saved
+
+    def forking_eval(self, expr, st):
+        """value of an expression whose evaluation may fork (conditional expressions, followed helper calls) -> [(state, value)]"""
+        if isinstance(expr, ast.IfExp):
+            out = []
+            for truth, st2 in self.decide(expr.test, st):
+                out.extend(self.forking_eval(expr.body if truth else expr.orelse, st2))
+            return out
+        sites = self._inline_sites(expr, st)
+        if not sites:
+            return [(st, self.ev(expr, st))]
+        return [(st2, self.ev(expr, st2)) for st2 in self.prefork(sites, st)]
+
+    def _stmt(self, s, st):
         if isinstance(s, ast.Expr):
             if isinstance(s.value, ast.Constant):
                 return [(st, "next", None)]
-            self.ev(s.value, st)
-            return [(st, "next", None)]
+            return [(st2, "next", None) for st2, _ in self.forking_eval(s.value, st)]
         if isinstance(s, (ast.Assign, ast.AnnAssign)):
             value = s.value
             targets = s.targets if isinstance(s, ast.Assign) else [s.target]
             if value is None:
                 return [(st, "next", None)]
-            if isinstance(value, ast.IfExp):
-                out = []
-                for truth, st2 in self.decide(value.test, st):
-                    v = self.ev(value.body if truth else value.orelse, st2)
-                    for t in targets:
-                        self.assign(t, v, st2)
-                    out.append((st2, "next", None))
-                return out
-            v = self.ev(value, st)
-            for t in targets:
-                self.assign(t, v, st)
-            return [(st, "next", None)]
+            out = []
+            for st2, v in self.forking_eval(value, st):
+                for t in targets:
+                    self.assign(t, v, st2)
+                out.append((st2, "next", None))
+            return out
         if isinstance(s, ast.AugAssign):
-            cur = self.ev(_load(s.target), st)
-            v = self.binop(s.op, cur, self.ev(s.value, st), st)
-            self.assign(s.target, v, st)
-            return [(st, "next", None)]
+            out = []
+            for st2, rhs in self.forking_eval(s.value, st):
+                cur = self.ev(_load(s.target), st2)
+                v = self.binop(s.op, cur, rhs, st2)
+                self.assign(s.target, v, st2)
+                out.append((st2, "next", None))
+            return out
         if isinstance(s, ast.If):
             out = []
             for truth, st2 in self.decide(s.test, st):
                 out.extend(self.block(s.body if truth else s.orelse, st2))
             return out
         if isinstance(s, ast.Return):
-            if s.value is not None and isinstance(s.value, ast.IfExp):
-                out = []
-                for truth, st2 in self.decide(s.value.test, st):
-                    out.append((st2, "return", (self.ev(s.value.body if truth else s.value.orelse, st2), s)))
-                return out
-            return [(st, "return", (self.ev(s.value, st) if s.value is not None else Const(None), s))]
+            if s.value is None:
+                return [(st, "return", (Const(None), s))]
+            return [(st2, "return", (v, s)) for st2, v in self.forking_eval(s.value, st)]
         if isinstance(s, ast.Raise):
             return [(st, "raise", s)]
         if isinstance(s, ast.Break):
@@ -261,7 +371,15 @@ class Engine:
         raise Unsupported(f"statement {type(s).__name__} at line {getattr(s, 'lineno', '?')}")
 
     def for_loop(self, s, st):
-        it = self.ev(s.iter, st)
+        forks = self.forking_eval(s.iter, st)
+        if len(forks) != 1:
+            out = []
+            for st2, it in forks:
+                out.extend(self._for_loop(s, st2, it))
+            return out
+        return self._for_loop(s, forks[0][0], forks[0][1])
+
+    def _for_loop(self, s, st, it):
         if not isinstance(it, Tup):
             if self.lenient:
                 # a loop that is not the rule's business: what it assigns is unknown afterwards
@@ -328,11 +446,33 @@ class Engine:
             else:
                 for e in t.elts:
                     self.assign(e, Unk("unpacking"), st)
-        # attribute / subscript stores are not modelled
+        elif isinstance(t, ast.Subscript) and isinstance(t.value, ast.Name) and isinstance(st.env.get(t.value.id), Tup):
+            # store into a list held in a local: a constant index replaces that item, anything else makes the list unknown
+            cur = st.env[t.value.id]
+            i = None if isinstance(t.slice, ast.Slice) else as_int(self.ev(t.slice, st))
+            if i is not None and -len(cur.items) <= i < len(cur.items):
+                items = list(cur.items)
+                items[i] = v
+                st.env[t.value.id] = Tup(tuple(items))
+            else:
+                st.env[t.value.id] = Unk("subscript store")
+        # attribute stores and stores into other objects are not modelled
 
     # ------------------------------------------------------------ tests
     def decide(self, test, st):
         """-> [(truth, state)]"""
+        structural = isinstance(test, ast.BoolOp) or (isinstance(test, ast.UnaryOp) and isinstance(test.op, ast.Not)) \
+            or (isinstance(test, ast.Compare) and len(test.ops) > 1)
+        if not structural and self.inline is not None:
+            sites = self._inline_sites(test, st)
+            if sites:
+                out = []
+                for st2 in self.prefork(sites, st):
+                    out.extend(self._decide(test, st2))
+                return out
+        return self._decide(test, st)
+
+    def _decide(self, test, st):
         if self.cond_hook is not None:
             r = self.cond_hook(test, st, self)
             if r is not None:
@@ -465,6 +605,182 @@ class Engine:
             if c != 0:
                 add(eq, iv.below(-c, True).above(-c, True))
             add(not eq, iv.below(-c, False)); add(not eq, iv.above(-c, False).below(c, False)); add(not eq, iv.above(c, False))
+        return out
+
+    # ------------------------------------------------------------ followed calls
+    def resolve_callee(self, node, st):
+        """(name, FunctionDef) of the plain module-level function a call node invokes and that is to be followed, else None"""
+        if self.inline is None or not isinstance(node.func, ast.Name):
+            return None
+        nm = node.func.id
+        if nm in st.env:
+            v = st.env[nm]
+            if not (isinstance(v, Opaque) and v.name.startswith("name:") and not v.args):
+                return None
+            nm = v.name[5:]                  # a local bound to a function of the module (a formatter handed down as an argument)
+        fn = self.mod.funcs.get(nm)
+        if fn is None or "." in nm or (nm + "#2") in self.mod.funcs or nm in self._stack or len(self._stack) >= MAX_INLINE_DEPTH:
+            return None
+        if not self.inline(nm) or not _plain_function(fn):
+            return None
+        if any(isinstance(a, ast.Starred) for a in node.args) or any(k.arg is None for k in node.keywords):
+            return None
+        return nm, fn
+
+    def _inline_sites(self, expr, st):
+        """calls to followed functions that are evaluated whenever `expr` is (not the right operands of and / or, the arms of a
+        conditional expression, the element of a comprehension), innermost and leftmost first"""
+        if self.inline is None:
+            return []
+        cand = getattr(expr, "_c12_sites", None)
+        if cand is None:
+            cand = []
+
+            def visit(n):
+                if isinstance(n, (ast.Lambda, ast.Constant, ast.Name)):
+                    return
+                if isinstance(n, (ast.ListComp, ast.SetComp, ast.DictComp, ast.GeneratorExp)):
+                    visit(n.generators[0].iter)
+                    return
+                if isinstance(n, ast.BoolOp):
+                    visit(n.values[0])
+                    return
+                if isinstance(n, ast.IfExp):
+                    visit(n.test)
+                    return
+                if isinstance(n, ast.Compare) and len(n.ops) > 1:
+                    visit(n.left)
+                    visit(n.comparators[0])
+                    return
+                for c in ast.iter_child_nodes(n):
+                    visit(c)
+                if isinstance(n, ast.Call) and isinstance(n.func, ast.Name):
+                    cand.append(n)
+            visit(expr)
+            expr._c12_sites = cand = tuple(cand)
+        if not cand:
+            return cand
+        return [n for n in cand if self.resolve_callee(n, st) is not None]
+
+    def prefork(self, sites, st):
+        """evaluate the followed calls of an expression ahead of it: every path through a callee gives one state, in which the value
+        of the call is remembered under the call node; paths on which the callee raises end the statement"""
+        cur = [st]
+        for node in sites:
+            nxt = []
+            for c in cur:
+                nxt.extend(self._prefork_one(node, c))
+            cur = nxt
+        return cur
+
+    def _prefork_one(self, node, st):
+        key = _memo_key(node)
+        st.env.pop(key, None)
+        rc = self.resolve_callee(node, st)
+        if rc is None:
+            return [st]
+        name, fn = rc
+        try:
+            args = [self._ev_u(a, st) for a in node.args]
+            kw = {k.arg: self._ev_u(k.value, st) for k in node.keywords}
+        except Raised as r:
+            self._term.append((st, "exc", r.name))
+            return []
+        if self.call_hook is not None:
+            r = self.call_hook(name, args, kw, node, st, self)
+            if r is not NotImplemented:
+                st.env[key] = r
+                return [st]
+        res = self.inline_call(name, fn, args, kw, st, node)
+        if res is None:
+            return [st]
+        out = []
+        for ns, o, pay in res:
+            if o == "value":
+                ns.env[key] = pay
+                out.append(ns)
+            else:
+                self._term.append((ns, o, pay))
+        return out
+
+    def _ev_u(self, node, st):
+        try:
+            return self._ev(node, st)
+        except Unsupported as e:
+            return Unk(str(e))
+
+    def bind_args(self, fn, args, kw):
+        a = fn.args
+        if a.vararg or a.kwarg:
+            return None
+        pos = [x.arg for x in a.posonlyargs + a.args]
+        kwo = [x.arg for x in a.kwonlyargs]
+        if len(args) > len(pos):
+            return None
+        env = dict(zip(pos, args))
+        for k, v in kw.items():
+            if k in env or k not in pos + kwo or k in [x.arg for x in a.posonlyargs]:
+                return None
+            env[k] = v
+        dflt = dict(zip(pos[len(pos) - len(a.defaults):], a.defaults))
+        dflt.update({k: d for k, d in zip(kwo, a.kw_defaults) if d is not None})
+        for nm in pos + kwo:
+            if nm in env:
+                continue
+            if nm not in dflt:
+                return None
+            try:
+                v = Engine(self.ctx, self.rel, None)._ev(dflt[nm], State({}, Interval()))
+            except (Raised, Unsupported):
+                v = Unk("default")
+            env[nm] = Opaque("default:" + nm, ()) if _has_unknown(v) or isinstance(v, Opaque) else v
+        return env
+
+    def inline_call(self, name, fn, args, kw, st, node):
+        """evaluate a function of the module on the argument values, continuing the caller's path (interval, recorded tests, effects)
+        -> [(caller state after the call, 'value' | 'raise' | 'exc', payload)] or None when the call cannot be bound"""
+        env = self.bind_args(fn, args, kw)
+        if env is None:
+            return None
+        self.ctx.src.funcs_consulted.add(f"{self.rel}:{name}")
+        sub = type(self)(self.ctx, self.rel, fn, param=self.param, cond=self.cond_hook, call=self.call_hook, cmp=self.cmp_hook, length=self.len_hook,
+                     follow=self.follow, post=self.post_hook, lenient=self.lenient, exceptions=self.exceptions, strict_locals=self._strict_flag,
+                     inline=self.inline, _stack=self._stack + (name,))
+        sub._modconst = self._modconst
+        sub.nstates = self.nstates
+        effects = st.effects + ((name, tuple(args), tuple(sorted(kw.items())), node),)
+        cst = State(env, st.iv, st.facts, effects)
+        try:
+            res = sub.block(fn.body, cst)
+        finally:
+            self.nstates = sub.nstates
+        use = _list_param_use(fn, self)
+        names = [x.arg for x in fn.args.posonlyargs + fn.args.args]
+        shared = []                          # (caller local, callee parameter): a list handed to the helper under a plain name
+        for i, a in enumerate(node.args):
+            if i < len(names) and isinstance(a, ast.Name) and isinstance(st.env.get(a.id), Tup):
+                shared.append((a.id, names[i]))
+        for k in node.keywords:
+            if isinstance(k.value, ast.Name) and isinstance(st.env.get(k.value.id), Tup):
+                shared.append((k.value.id, k.arg))
+        out = []
+        for s2, o, pay in res:
+            ns = State(dict(st.env), s2.iv, s2.facts, s2.effects)
+            for mine, theirs in shared:
+                how = use.get(theirs, "pure")
+                if how == "mutates":
+                    v = s2.env.get(theirs)
+                    ns.env[mine] = v if isinstance(v, Tup) else Unk("list altered by a helper")
+                elif how == "escapes":
+                    ns.env[mine] = Unk("list handed to a helper that may alter it")
+            if o == "return":
+                out.append((ns, "value", pay[0]))
+            elif o == "next":
+                out.append((ns, "value", Const(None)))
+            elif o in ("raise", "exc"):
+                out.append((ns, o, pay))
+            else:
+                raise Unsupported(f"{name}: {o} outside a loop")
         return out
 
     # ------------------------------------------------------------ expressions
@@ -784,6 +1100,9 @@ class Engine:
 
     # ------------------------------------------------------------ calls
     def call(self, node, st):
+        key = _memo_key(node)
+        if key in st.env:
+            return st.env[key]               # a followed call evaluated ahead of its statement
         name = dotted(node.func)
         root = node.func
         while isinstance(root, ast.Attribute):
@@ -814,6 +1133,13 @@ class Engine:
                 return Const(None)
             st.env[node.func.value.id] = Unk("extend by a non-literal")
             return Const(None)
+        rc = self.resolve_callee(node, st)
+        if rc is not None:
+            # a followed call in a position that is not evaluated ahead (arm of a conditional expression, comprehension element ...):
+            # followed when the callee has one outcome for these arguments
+            r = self._inline_single(rc[0], rc[1], args, kw, st, node)
+            if r is not NotImplemented:
+                return r
         # a local bound to a function of the module (a formatter passed as argument)
         if isinstance(node.func, ast.Name) and isinstance(st.env.get(node.func.id), Opaque) and st.env[node.func.id].name.startswith("name:") \
                 and st.env[node.func.id].name[5:] in self.mod.funcs and not kw:
@@ -851,6 +1177,28 @@ class Engine:
                     args = full
             return CallS(name, tuple(args))
         return Opaque("call:" + (name or ast.unparse(node.func)), tuple(args) + tuple(Opaque("kw:" + k, (v,)) for k, v in sorted(kw.items())))
+
+    def _inline_single(self, name, fn, args, kw, st, node):
+        trial = State(dict(st.env), st.iv, st.facts, st.effects)
+        saved, self._term = self._term, []
+        try:
+            res = self.inline_call(name, fn, args, kw, trial, node)
+        finally:
+            self._term = saved
+        if not res:
+            return NotImplemented
+        vals = [r for r in res if r[1] == "value"]
+        excs = [r for r in res if r[1] == "exc"]
+        if len(res) == len(excs) and len({r[2] for r in excs}) == 1:
+            raise Raised(excs[0][2])
+        if len(vals) != len(res) or any(r[2] != vals[0][2] for r in vals):
+            return NotImplemented
+        if len(vals) > 1 and any((r[0].facts, r[0].effects, repr(r[0].iv)) != (vals[0][0].facts, vals[0][0].effects, repr(vals[0][0].iv)) for r in vals):
+            return NotImplemented
+        ns = vals[0][0]
+        st.env.update({k: v for k, v in ns.env.items() if st.env.get(k) is not v})
+        st.iv, st.facts, st.effects = ns.iv, ns.facts, ns.effects
+        return vals[0][2]
 
     def regex_call(self, name, node, args, kw, st):
         """re.compile / re.sub / re.match ... and the methods of a compiled pattern, on literal patterns and literal text (the standard
@@ -1027,6 +1375,10 @@ class Engine:
             return Fraction(len(a[0].s))
         if isinstance(a[0], Tup):
             return Fraction(len(a[0].items))
+        if isinstance(a[0], Cat):
+            parts = [self.b_len([p], st) for p in a[0].parts]
+            if all(is_num(p) for p in parts):
+                return sum(parts, Fraction(0))
         if self.len_hook is not None:
             r = self.len_hook(a[0], st, self)
             if r is not None:
